@@ -636,15 +636,24 @@ def broad_base(g):
             "glo": 0, "ghi": 0, "alt": False, "content": content}
 
 
-def kind_base(g):
+def kind_base(g, prefer=None, distinct=False):
     """one clause `?s <constant predicate> ?o` over a content in which every object of that predicate is of ONE kind
     (all float64, all int64, all text, all nodes): the ?o column can then be judged by ORDER BY / HAVING, and it holds
     the whole near-miss group of that kind (floats agreeing in 6 decimals, int64 beyond 2^53)."""
     pc = g.rng.choice([4, 4, 4, 1])
     mine = [i + 1 for i, t in enumerate(bqlu.TRIPLES) if t[1] == pc]
     kinds = sorted({bqlu.TRIPLES[i - 1][2]["k"] for i in mine})
-    k = g.rng.choice(kinds)
+    k = prefer if prefer in kinds else g.rng.choice(kinds)
     same = [i for i in mine if bqlu.TRIPLES[i - 1][2]["k"] == k]
+    if distinct:
+        # no two rows with the same object: ORDER BY ?o alone is then a total order
+        seen, keep = set(), []
+        for i in g.rng.sample(same, len(same)):
+            key = json.dumps(bqlu.TRIPLES[i - 1][2], sort_keys=True)
+            if key not in seen:
+                seen.add(key)
+                keep.append(i)
+        same = sorted(keep)
     others = [i + 1 for i, t in enumerate(bqlu.TRIPLES) if t[1] != pc]
     content = sorted(set(same) | set(g.rng.sample(others, g.rng.randint(3, 8))))
     if len(same) > 4 and g.rng.random() < 0.3:
@@ -1166,14 +1175,27 @@ def check_meta(v, tier, d):
                 return False
             if len(ns) != len(set(ns)) and c["o"]["id"] in [x for x in ns if ns.count(x) > 1]:
                 return False
-            if c["p"].get("lb") or c["p"].get("ub") or c["o"].get("lb") or c["o"].get("ub"):
-                return False
         return len(q["clauses"]) <= 3
+
+    def order_dependent(base):
+        # a bound written with a binding needs an earlier clause to bind it: such patterns are not permuted
+        return any(c["p"].get("lb") or c["p"].get("ub") or c["o"].get("lb") or c["o"].get("ub") for c in base["clauses"])
     rich = [q for q in gen_c03(Gen(vlib.seed() * 7919 + 141), n) if usable(q)]
     for _ in range(n):
+        rematch = False
         base = clean_base(g, max_clauses=3, p_alias=0.15)
         if g.rng.random() < 0.15:
             base = broad_base(g)
+        elif g.rng.random() < 0.15:
+            base = kind_base(g, prefer=g.rng.choice(["I", "I", "F", None]), distinct=g.rng.random() < 0.6)      # one column of ONE kind holding a whole near-miss group (int64 beyond 2^53, floats, ...)
+        elif g.rng.random() < 0.06:
+            # a later clause that binds nothing new and matches several triples per row (open bounds): the same assignment
+            # arrives several times; with the name-exchanging SELECT list below, whatever is done once per ARRIVAL shows
+            content = sorted(set(g.content(4, 8)) | {1, 2, 3, 4, 5, 19, 20, 22, 13, 14})
+            cls = [bqlgen.clause(bqlgen.S(b="?a"), bqlgen.P(c=g.rng.choice([1, 4])) if g.rng.random() < 0.6 else bqlgen.P(b="?p"), bqlgen.O(b="?b")),
+                   bqlgen.clause(bqlgen.S(b="?a"), bqlgen.P(pid=g.rng.choice([bqlu.sid("p"), bqlu.sid("q")]), bd=True), bqlgen.O(b="?b"))]
+            base = {"clauses": cls, "names": bqlgen.pattern_names(cls), "graphs": [content], "glo": 0, "ghi": 0, "alt": False, "content": content}
+            rematch = True
         elif rich and g.rng.random() < 0.35:
             q = rich.pop()
             content = sorted({t for gr in q["graphs"] for t in gr})
@@ -1196,11 +1218,17 @@ def check_meta(v, tier, d):
         names = base["names"]
         content = base["content"]
         one = [content]
-        hb = b.add(one, sel_text(dict(base, graphs=one), names))
+        # one time in four the SELECT list gives every binding the NAME of another one (`?a AS ?b, ?b AS ?a`): column i
+        # still holds the value of names[i]; the result must not depend on it in any variant
+        outn = list(names)
+        if len(names) > 1 and (g.rng.random() < 0.25 or rematch):
+            g.rng.shuffle(outn)
+        sel0 = [n if n == o else "%s AS %s" % (n, o) for n, o in zip(names, outn)]
+        hb = b.add(one, sel_text(dict(base, graphs=one), sel0))
         variants = []
         # repetition and configuration (channel size, bulk size, processors)
         for cfg in ({"chan": 0}, {"chan": 1, "procs": 1}, {"chan": 16, "procs": 2, "bulk": 1}, {"procs": 16}):
-            variants.append(("eq", names, b.add(one, sel_text(dict(base, graphs=one), names), **cfg), "config %s" % cfg))
+            variants.append(("eq", outn, b.add(one, sel_text(dict(base, graphs=one), sel0), **cfg), "config %s" % cfg))
         # consistent renaming of the bindings
         mp = {x: "?r%d" % i for i, x in enumerate(names)}
         q2 = rename(dict(base, graphs=one), mp)
@@ -1208,13 +1236,13 @@ def check_meta(v, tier, d):
         # clause permutations (no OPTIONAL in the clean fragment)
         perms = list(itertools.permutations(range(len(base["clauses"]))))[1:]
         g.rng.shuffle(perms)
-        for pm in perms[:3]:
+        for pm in ([] if order_dependent(base) else perms[:3]):
             q3 = dict(base, graphs=one, clauses=[base["clauses"][i] for i in pm])
-            variants.append(("eq", names, b.add(one, sel_text(q3, names)), "clause order %s" % (pm,)))
+            variants.append(("eq", outn, b.add(one, sel_text(q3, sel0)), "clause order %s" % (pm,)))
         # the data partitioned over 2-3 graphs
         for k in (2, 3):
             parts = g.split(content, k)
-            variants.append(("eq", names, b.add(parts, sel_text(dict(base, graphs=parts), names)), "partition over %d graphs" % k))
+            variants.append(("eq", outn, b.add(parts, sel_text(dict(base, graphs=parts), sel0)), "partition over %d graphs" % k))
         # supersets of the data: adding triples never removes rows
         for _s in range(2):
             extra = [t for t in range(1, len(bqlu.TRIPLES) + 1) if t not in content]
@@ -1223,15 +1251,27 @@ def check_meta(v, tier, d):
                 variants.append(("sub", names, b.add([sup], sel_text(dict(base, graphs=[sup]), names)), "superset"))
         # an ORDER BY over all columns determines a total order: same sequence every time
         order = [(x, g.rng.random() < 0.3) for x in names]
+        g.rng.shuffle(order)    # any column may be the first key (ties of the first key are decided by the later ones)
         ho = b.add(one, sel_text(dict(base, graphs=one), names, order=order))
         variants.append(("seq-of", names, b.add(one, sel_text(dict(base, graphs=one), names, order=order), procs=1, chan=1), "total order repeat", ho))
         variants.append(("seq-of", names, b.add(one, sel_text(dict(base, graphs=one), names, order=order), procs=16, chan=0), "total order repeat (16 procs)", ho))
         parts = g.split(content, 2)
         variants.append(("seq-of", names, b.add(parts, sel_text(dict(base, graphs=parts), names, order=order)), "total order over a partition of the data", ho))
-        if len(base["clauses"]) > 1:
+        if len(base["clauses"]) > 1 and not order_dependent(base):
             q4 = dict(base, graphs=one, clauses=list(reversed(base["clauses"])))
             variants.append(("seq-of", names, b.add(one, sel_text(q4, names, order=order)), "total order with the clauses reversed", ho))
-        plans.append((base, names, hb, variants))
+        # ORDER BY ONE column: a total order whenever the values of that column are all different (decided on the recorded
+        # result, see below) - the rows then come in one sequence however they arrive (partition, clause order, processors)
+        for x in names[:3]:
+            o1 = [(x, g.rng.random() < 0.4)]
+            h1 = b.add(one, sel_text(dict(base, graphs=one), names, order=o1))
+            p2 = g.split(content, 2)
+            variants.append(("seq-if-distinct", names, b.add(p2, sel_text(dict(base, graphs=p2), names, order=o1)), "single key %s over a partition" % x, h1, names.index(x)))
+            variants.append(("seq-if-distinct", names, b.add(one, sel_text(dict(base, graphs=one), names, order=o1), procs=1, chan=0), "single key %s, one processor" % x, h1, names.index(x)))
+            if len(base["clauses"]) > 1 and not order_dependent(base):
+                q5 = dict(base, graphs=one, clauses=list(reversed(base["clauses"])))
+                variants.append(("seq-if-distinct", names, b.add(one, sel_text(q5, names, order=o1)), "single key %s, clauses reversed" % x, h1, names.index(x)))
+        plans.append((base, outn, hb, variants))
     b.run(d, "C14")
     events, meta, stats = [], [], {"skipped_perr": 0}
     for base, names, hb, variants in plans:
@@ -1248,6 +1288,17 @@ def check_meta(v, tier, d):
             ev_, rv = b.rows(hv, vnames)
             if ev_ == "perr":
                 stats["skipped_perr"] += 1
+                continue
+            if rel == "seq-if-distinct":
+                ho, col = var[4], var[5]
+                eo, ro = b.rows(ho, vnames)
+                if eo or not ro:
+                    continue
+                vals = [json.dumps(r[col], sort_keys=True) for r in ro]
+                if len(set(r[col]["k"] for r in ro)) > 1 or len(set(vals)) != len(vals) or ro[0][col]["k"] in ("0", "P", "N", "B"):
+                    continue  # not one kind, or two rows share the key value (no total order), or a kind whose order is not stated
+                events.append({"ev": "M", "prop": "C14", "rel": "seq", "base": ro, "baseerr": False, "rows": rv, "err": ev_ != ""})
+                meta.append({"handles": [ho, hv], "variant": what})
                 continue
             if rel == "seq-of":
                 ho = var[4]
